@@ -31,6 +31,7 @@ type Req struct {
 	CC     string `json:",omitempty"` // request Cache-Control: "" | no-cache | no-store
 	Inv    bool   `json:",omitempty"` // CacheInvalidator returns true for this request
 	TTL0   bool   `json:",omitempty"` // ExpirationGenerator returns 0 (expired at once) instead of 1h
+	Tick   bool   `json:",omitempty"` // no request: ten minutes pass for the storage (its TTLs run on the virtual clock); every entry was stored for an hour, so nothing may change
 	Skip   bool   `json:",omitempty"` // Config.Next returns true for this request
 }
 
@@ -84,6 +85,7 @@ type world struct {
 	app    *fiber.App
 	st     *vk.Storage
 	sched  *vk.Sched
+	ticks  int
 	mu     sync.Mutex
 	serial int
 	execs  map[string][]*origin // goroutine-safe log of origin executions per request uri
@@ -240,6 +242,13 @@ type model struct {
 }
 
 func (m *model) seqStep(w *world, r Req, i int, phase string) string {
+	if r.Tick {
+		if w.ticks < 5 { // (at most 50 minutes in all)
+			w.ticks++
+			vk.Advance(600)
+		}
+		return ""
+	}
 	before := w.execCount(r)
 	type res struct{ ctx *fasthttp.RequestCtx }
 	ch := make(chan res, 1)
@@ -501,6 +510,9 @@ func genReq(t *rapid.T, c Case) Req {
 	if c.UseNext {
 		r.Skip = rapid.IntRange(0, 4).Draw(t, "skip") == 0
 	}
+	if rapid.IntRange(0, 9).Draw(t, "tick") == 0 {
+		r = Req{Tick: true}
+	}
 	return r
 }
 
@@ -570,6 +582,9 @@ func genCase(t *rapid.T, conc bool) Case {
 		ng := rapid.IntRange(2, 4).Draw(t, "ng")
 		for i := 0; i < ng; i++ {
 			r := genReq(t, c)
+			if r.Tick {
+				r = Req{Method: "GET", Path: "/a", V: "1"} // (time passes between requests, not inside the concurrent phase)
+			}
 			if rapid.Bool().Draw(t, "samekey") && len(c.Conc) > 0 {
 				r.Path, r.V, r.Method = c.Conc[0].Path, c.Conc[0].V, c.Conc[0].Method
 			}
